@@ -4,7 +4,7 @@ import json, subprocess, sys
 
 CLAIMED = sys.argv[1:] if len(sys.argv) > 1 else []
 
-HOOK_COMMITS = ["3c6a5a1", "50f87ec", "fe2bb40", "11d1f9b", "0a08805", "cfbae01"]
+HOOK_COMMITS = ["3c6a5a1", "50f87ec", "fe2bb40", "11d1f9b", "0a08805", "cfbae01", "8836ec2"]
 
 T_MON = "runtime monitoring: real go-orbit-db stores run under generated hostile workloads on a simulated network; oracle = executable reference model over observed API state, wire log and hook events"
 
